@@ -133,7 +133,8 @@ def main():
     ap.add_argument('--no-evidence', action='store_true')
     ap.add_argument('--no-conformance', action='store_true')
     ap.add_argument('--fail-fast', action='store_true', help='do not start further instances once a violation was replayed (mutant runs)')
-    ap.add_argument('--scale', type=float, default=float(os.environ.get('VP_TIMEOUT_SCALE', '1')))
+    ap.add_argument('--scale', type=float, default=float(os.environ.get('VP_TIMEOUT_SCALE', '1.5')),
+                    help='factor on every per-condition timeout (1.5: the same instances were measured 1.0x-1.55x apart between sessions on this sandbox)')
     args = ap.parse_args()
 
     if args.setup:
@@ -210,7 +211,13 @@ def main():
         print(ln, flush=True)
 
     # ---- run instances ---------------------------------------------------------------------------
-    insts.sort(key=lambda i: -i.get('timeout', 60))
+    # scheduling only (no influence on verdicts): longest instances first, by the wall times of an earlier run if recorded
+    costs = {}
+    try:
+        costs = json.load(open(os.path.join(HERE, 'tools', 'costs.json'))).get(pid, {}).get(tier, {})
+    except Exception:
+        pass
+    insts.sort(key=lambda i: (-i.get('timeout', 60), -costs.get(i['name'], 1e9)))
     results = []
     print(f'[{pid}] tier={tier} instances={len(insts)} jobs={args.jobs} active_regions={active}', flush=True)
 
